@@ -31,6 +31,12 @@ type ProgCfg struct {
 	VDR bool
 	// Values config for literals.
 	Values ValueCfg
+	// StaticPipelineMaps: pipelines are mapped only over collections whose
+	// size is known when the pipestance is invoked (literals, top-level
+	// inputs).
+	StaticPipelineMaps bool
+	// SplitFlags: a flag input of a mapped pipeline may be given per element.
+	SplitFlags bool
 	// NoChainedMaps: split sources are never outputs of mapped calls or of
 	// pipelines (whatever MapLevel allows otherwise).
 	NoChainedMaps bool
@@ -1111,7 +1117,11 @@ func (g *pgen) genCallBindings(c *Call) {
 			}
 		}
 	}
-	if mayMap && rapid.IntRange(0, 2).Draw(t, "mapCall") == 0 {
+	mapOdds := 2
+	if g.prog.Pipeline(c.Callee) != nil {
+		mapOdds = 0 // pipelines that may be mapped at all are few: map them
+	}
+	if mayMap && rapid.IntRange(0, mapOdds).Draw(t, "mapCall") == 0 {
 		mapShape, mapKind, splitIdx = g.genMapSources(c, ins)
 	}
 	g.reserved = -1
@@ -1307,6 +1317,21 @@ func (g *pgen) genFlagExpr() Expr {
 		return flags[rapid.IntRange(0, len(flags)-1).Draw(g.t, "flagSrc")].ref
 	}
 	return Lit{V: rapid.Bool().Draw(g.t, "flagLit"), T: Ty{Base: "bool"}}
+}
+
+// genFlagExprNoInput: a never-null bool that is a literal or an in-scope
+// run-time flag.
+func (g *pgen) genFlagExprNoInput() Expr {
+	var flags []source
+	for _, s := range g.sources {
+		if s.nonNull && s.t == (Ty{Base: "bool"}) && s.call != "" {
+			flags = append(flags, s)
+		}
+	}
+	if len(flags) > 0 && rapid.IntRange(0, 2).Draw(g.t, "elemFlagRef") != 0 {
+		return flags[rapid.IntRange(0, len(flags)-1).Draw(g.t, "elemFlagSrc")].ref
+	}
+	return Lit{V: rapid.IntRange(0, 3).Draw(g.t, "elemFlagLit") == 0, T: Ty{Base: "bool"}}
 }
 
 func exprUsesCall(e Expr) bool {
@@ -1597,6 +1622,9 @@ func (g *pgen) genMapSources(c *Call, ins []Param) (shape, kind string, idx map[
 		if s.maybeDisabled && g.excluded("split-over-disabled-call-output") {
 			return false
 		}
+		if g.prog.Stage(c.Callee) == nil && g.cfg.StaticPipelineMaps && s.call != "" {
+			return false // pipelines are mapped over literals and inputs only
+		}
 		if g.prog.Stage(c.Callee) == nil && g.cfg.Exclude["mapped-pipeline-over-empty"] {
 			// known finding: stages of a mapped pipeline that do not use
 			// the element run although the collection is empty at run
@@ -1637,10 +1665,18 @@ func (g *pgen) genMapSources(c *Call, ins []Param) (shape, kind string, idx map[
 			hasDyn = true
 		}
 	}
-	if !hasDyn && !g.inProducer && rapid.IntRange(0, 3).Draw(t, "makeProducer") != 0 {
+	if !hasDyn && !g.inProducer && !(g.cfg.StaticPipelineMaps && g.prog.Stage(c.Callee) == nil) && rapid.IntRange(0, 3).Draw(t, "makeProducer") != 0 {
 		if s, ok := g.insertProducer(collT); ok && okSplit(s) {
 			cs = append(cs, s)
 			roll = 0
+		}
+	}
+	if g.cfg.SplitFlags && g.prog.Pipeline(c.Callee) != nil && kind == "array" {
+		for _, other := range ins {
+			if other.Flag && rapid.Bool().Draw(t, "literalForFlags") {
+				roll = 9 // a literal source: flags can be given per element
+				break
+			}
 		}
 	}
 	var e Expr
@@ -1688,6 +1724,19 @@ func (g *pgen) genMapSources(c *Call, ins []Param) (shape, kind string, idx map[
 	g.markSplitSrc(e)
 	// further split parameters with the same shape
 	for j, other := range ins {
+		if other.Flag && j != first && kind == "array" && len(shape) > 10 && shape[:10] == "lit:array:" && g.cfg.SplitFlags && rapid.IntRange(0, 1).Draw(t, "splitFlag") == 0 {
+			// the disabling flag of calls inside a mapped pipeline, given
+			// per element: literal and run-time flags side by side
+			if lit, ok := e.(ArrayLit); ok {
+				a := ArrayLit{}
+				for range lit.Elems {
+					a.Elems = append(a.Elems, g.genFlagExprNoInput())
+				}
+				c.Bindings = append(c.Bindings, Binding{Param: other.Name, E: Split{E: a}})
+				idx[j] = true
+			}
+			continue
+		}
 		if j == first || (j == g.reserved && g.reserved >= 0) || other.Flag || rapid.IntRange(0, 2).Draw(t, "moreSplit") != 0 {
 			continue
 		}
